@@ -454,3 +454,69 @@ func TestVerifC14Deviations(t *testing.T) {
 		}
 	}
 }
+
+// TestVerifC14UnknownKeys: the user runs the whole exchange honestly - both messages consistent with
+// each other - for keys of which the server holds only some.  "Only for keys it knows": wherever the
+// element naming the unknown key stands (first, after known ones, after non-participating ones), the
+// server must refuse.
+func TestVerifC14UnknownKeys(t *testing.T) {
+	r := vkit.Start(t, "C14", "keys-unknown-to-the-server", 240*time.Second, 900*time.Second)
+	defer r.Finish()
+	r.Rule = "every builder list of length 1..3 over {disclosure under a key the server knows, disclosure under a participating key the server does NOT hold, disclosure under a non-participating key} containing at least one element of the second kind; both user messages honest and consistent; non-trivial = distinct list; oracle: KeyshareResponse returns an error and no ProofP (control: the same session with the full key table is answered)"
+	vfInstallEnv(t, "C14/unknown", r.Seed)
+	kinds := []c14Slot{{vsDisc, "k1024a"}, {vsDisc, "k1024b"}, {vsDisc, "k2048"}}
+	var lists [][]c14Slot
+	var rec func(cur []c14Slot)
+	rec = func(cur []c14Slot) {
+		if len(cur) > 0 {
+			has := false
+			for _, s := range cur {
+				has = has || s.key == "k1024b"
+			}
+			if has {
+				lists = append(lists, append([]c14Slot{}, cur...))
+			}
+		}
+		if len(cur) == 3 {
+			return
+		}
+		for _, k := range kinds {
+			rec(append(cur, k))
+		}
+	}
+	rec(nil)
+	for _, sl := range lists {
+		if _, mine := r.Next(); !mine {
+			continue
+		}
+		if r.Expired() {
+			return
+		}
+		s, err := c14Build(sl, map[string]bool{"k1024a": true, "k1024b": true}, false)
+		if err != nil {
+			r.HarnessError("session: %v", err)
+			return
+		}
+		r.Eval()
+		r.Nontrivial(s.name())
+		if p, err := KeyshareResponse(s.kssSec, s.kssRand, s.commReq, s.respReq, s.keys); err != nil || p == nil {
+			r.Violate("C14|honest-exchange-failed|server-side", fmt.Sprintf("%s: %v", s.name(), err), s.name())
+			continue
+		}
+		fewer := map[string]*gabikeys.PublicKey{}
+		for id, k := range s.keys {
+			if id != vfKeyID(vfK("k1024b").Pk) {
+				fewer[id] = k
+			}
+		}
+		var p *ProofP
+		pan, msg := vkit.Guard(func() { p, err = KeyshareResponse(s.kssSec, s.kssRand, s.commReq, s.respReq, fewer) })
+		r.Outcome(fmt.Sprintf("unknown-key:panic=%v:err=%v", pan, err != nil))
+		switch {
+		case pan:
+			r.Violate("C14|server-panicked-on-unknown-key", fmt.Sprintf("%s: %s", s.name(), msg), s.name())
+		case err == nil || p != nil:
+			r.Violate("C14|server-responded-for-a-key-it-does-not-know", s.name()+": the server holds no key for one of the participating elements and answered nevertheless", s.name())
+		}
+	}
+}
